@@ -12,6 +12,7 @@ import (
 	"errors"
 	"fmt"
 	"reflect"
+	"strings"
 	"sync"
 	"sync/atomic"
 	"time"
@@ -24,6 +25,8 @@ import (
 )
 
 const verifDatabase = "c13db"
+
+var quiescentVerdicts int64
 
 type capLogger struct {
 	mu       sync.Mutex
@@ -68,10 +71,25 @@ type env struct {
 	activity int64
 	tableIDs map[string]uint64
 	mapped   map[string]bool
+	// the previous cleanly decoded row per table: staged in front of the next
+	// one (multi-row result sets reuse pooled scanners and driver buffers)
+	prev        map[string]*prevRow
+	lastDecoded map[string]*lastDec
+}
+
+type lastDec struct {
+	c *caseCtx
+	y reflect.Value
+}
+
+type prevRow struct {
+	c   *caseCtx
+	row []driver.Value
+	p   profile
 }
 
 func newEnv(z *zoo) (*env, error) {
-	e := &env{z: z, st: &fakeState{layouts: map[string][]string{}}, pollDone: make(chan error, 1), tableIDs: map[string]uint64{}, mapped: map[string]bool{}}
+	e := &env{z: z, st: &fakeState{layouts: map[string][]string{}}, pollDone: make(chan error, 1), tableIDs: map[string]uint64{}, mapped: map[string]bool{}, prev: map[string]*prevRow{}, lastDecoded: map[string]*lastDec{}}
 	for k, ti := range z.tables {
 		e.st.layouts[ti.name] = ti.layout
 		e.tableIDs[ti.name] = uint64(100 + k)
@@ -97,11 +115,6 @@ func (e *env) close() {
 	case <-time.After(10 * time.Second):
 	}
 	e.conn.Close()
-}
-
-func (e *env) report(run *vlib.Run) {
-	run.Set("fake_driver_queries", atomic.LoadInt64(&e.st.queries))
-	run.Set("binlog_logged_errors", atomic.LoadInt64(&e.log.n))
 }
 
 var queryProfiles = []profile{pQueryText, pQueryTextParseTime, pQueryBinary, pQueryBinaryParseTime}
@@ -149,17 +162,38 @@ func (e *env) dbPath(c *caseCtx, choices []colChoice) {
 	for k := range stored {
 		row[k] = encode(stored[k], choices[k], p)
 	}
-	e.st.stage(c.names, [][]driver.Value{row})
+	staged := [][]driver.Value{row}
+	prev := e.prev[c.ti.name]
+	if prev != nil {
+		staged = [][]driver.Value{prev.row, row}
+	}
+	delete(e.prev, c.ti.name)
+	e.st.stage(c.names, staged)
 	res := reflect.New(reflect.SliceOf(reflect.PtrTo(c.ti.typ)))
+	before := c.nviol
 	c.decodeAndCompare(p, "sqlgen.DB.Query", row, choices, func() (interface{}, error) {
 		if err := e.db.Query(ctx, res.Interface(), nil, nil); err != nil {
 			return nil, err
 		}
-		if res.Elem().Len() != 1 {
-			return nil, fmt.Errorf("c13: Query returned %d rows for 1 staged row", res.Elem().Len())
+		if res.Elem().Len() != len(staged) {
+			return nil, fmt.Errorf("c13: Query returned %d rows for %d staged rows", res.Elem().Len(), len(staged))
 		}
-		return res.Elem().Index(0).Interface(), nil
+		return res.Elem().Index(len(staged) - 1).Interface(), nil
 	}, nil)
+	if c.nviol != before {
+		return
+	}
+	if prev != nil && res.Elem().Len() == 2 {
+		// the earlier row of the same result set must be intact as well
+		y := res.Elem().Index(0)
+		if cols := c.ti.diff(prev.c.x.Elem(), y.Elem(), false); len(cols) > 0 {
+			c.violate("", prev.c.wit(map[string]interface{}{"what": "sqlgen.DB.Query: the first row of a two-row result set differs from its original (it decoded correctly alone)",
+				"profile": prev.p.String(), "column": strings.Join(cols, ","), "source_row": showRow(c.names, prev.row), "got": showStruct(y.Interface())}))
+			return
+		}
+		c.run.Count("dbsql_two_row_result_sets", 1)
+	}
+	e.prev[c.ti.name] = &prevRow{c: c, row: row, p: p}
 }
 
 func flipKey(v driver.Value) driver.Value {
@@ -234,6 +268,12 @@ func (e *env) binlogPath(c *caseCtx, choices []colChoice) {
 // errClass: classifier key to use if the poll loop fails to decode.
 func (e *env) pushAndObserve(c *caseCtx, choices []colChoice, row []driver.Value, kind int, filter sqlgen.Filter, errClass string) {
 	ti := c.ti
+	// Each "no invalidation" verdict costs a quiescence wait of several seconds;
+	// after a few of them the verdict stands and further waiting adds nothing.
+	if atomic.LoadInt64(&quiescentVerdicts) >= 3 {
+		c.run.Count("binlog_e2e_skipped_after_repeated_no_invalidation_verdicts", 1)
+		return
+	}
 	mkRow := func(flip bool) []interface{} {
 		brow := make([]interface{}, len(ti.layout))
 		for j := range brow {
@@ -274,7 +314,7 @@ func (e *env) pushAndObserve(c *caseCtx, choices []colChoice, row []driver.Value
 	}, 0, false)
 	defer rr.Stop()
 	act := func() int64 { return atomic.LoadInt64(&e.activity) + atomic.LoadInt64(&e.st.queries) }
-	if o := vlib.WaitCond(func() bool { return atomic.LoadInt64(&runs) >= 1 }, act, 5*time.Second, 30*time.Second); o != vlib.Reached {
+	if o := vlib.WaitCond(func() bool { return atomic.LoadInt64(&runs) >= 1 }, act, 10*time.Second, 60*time.Second); o != vlib.Reached {
 		c.run.Inconclusive(fmt.Sprintf("case %d: rerunner did not start (%s)", c.i, o))
 		return
 	}
@@ -291,7 +331,7 @@ func (e *env) pushAndObserve(c *caseCtx, choices []colChoice, row []driver.Value
 	e.push(&replication.BinlogEvent{Header: &replication.EventHeader{EventType: et}, Event: &replication.RowsEvent{Version: 2, Table: tm, TableID: tm.TableID, ColumnCount: uint64(len(ti.layout)), Rows: rows}})
 	o := vlib.WaitCond(func() bool {
 		return atomic.LoadInt64(&runs) >= 2 || atomic.LoadInt64(&e.log.n) > errsBefore
-	}, act, 3*time.Second, 30*time.Second)
+	}, act, 10*time.Second, 60*time.Second)
 	srcRow := map[string]string{}
 	for j, v := range rows[len(rows)-1] {
 		srcRow[ti.layout[j]] = show(v)
@@ -304,6 +344,7 @@ func (e *env) pushAndObserve(c *caseCtx, choices []colChoice, row []driver.Value
 	case o == vlib.Reached:
 		c.run.Count("binlog_e2e_matched", 1)
 	case o == vlib.QuiescentNot:
+		atomic.AddInt64(&quiescentVerdicts, 1)
 		c.violate("", c.wit(map[string]interface{}{"what": "binlog path: the decoded row did not match a dependency made of the row's own column values (no invalidation at quiescence)", "event": et.String(),
 			"binlog_row": srcRow, "choices": fmt.Sprint(choices), "filter": showFilter(filter)}))
 	default:
